@@ -120,6 +120,30 @@ func generate(repo, verif, scratch string) (*genOut, error) {
 	if out.Yields == 0 {
 		return nil, fmt.Errorf("no yield points found in cmd/keymasterd (source layout changed?)")
 	}
+	// 3a. internally synchronised library packages the daemon links: a scheduling point after every lock that
+	// is released in the middle of a function (a lock held to the end through defer creates none)
+	for _, pkg := range libYieldPackages {
+		lsrcs, _ := filepath.Glob(filepath.Join(repo, pkg, "*.go"))
+		sort.Strings(lsrcs)
+		for _, f := range lsrcs {
+			if strings.HasSuffix(f, "_test.go") {
+				continue
+			}
+			n, data, err := instrumentUnlockYields(f, pkg)
+			if err != nil {
+				return nil, fmt.Errorf("instrument %s: %w", f, err)
+			}
+			if n == 0 {
+				continue
+			}
+			out.Yields += n
+			dst := filepath.Join(scratch, "inst", "lib_"+strings.ReplaceAll(pkg, "/", "_")+"_"+filepath.Base(f))
+			if err := os.WriteFile(dst, data, 0o644); err != nil {
+				return nil, err
+			}
+			ov.Replace[f] = dst
+		}
+	}
 	// 3b. package-level sync.Map variables of the daemon are process-global state
 	// that must not leak from one simulated run into the next: generate a reset
 	resets, err := findSyncMapGlobals(srcs)
@@ -394,6 +418,75 @@ func instrumentYields(path string) (int, []byte, error) {
 		src = reattachEmbeds(orig, src)
 	}
 	fm, err := format.Source(src)
+	if err != nil {
+		return 0, nil, fmt.Errorf("formatting instrumented %s: %w", base, err)
+	}
+	return count, fm, nil
+}
+
+// libYieldPackages are the library packages with locks of their own that requests share.
+var libYieldPackages = []string{"keymasterd/eventnotifier", "keymasterd/admincache", "lib/authenticators/okta"}
+
+func isUnlockStmt(s ast.Stmt) bool {
+	es, ok := s.(*ast.ExprStmt)
+	if !ok {
+		return false
+	}
+	call, ok := es.X.(*ast.CallExpr)
+	if !ok || len(call.Args) != 0 {
+		return false
+	}
+	sel, ok := call.Fun.(*ast.SelectorExpr)
+	return ok && (sel.Sel.Name == "Unlock" || sel.Sel.Name == "RUnlock")
+}
+
+// instrumentUnlockYields inserts a yield after every explicit (not deferred) Unlock / RUnlock statement.
+func instrumentUnlockYields(path, pkg string) (int, []byte, error) {
+	fset := token.NewFileSet()
+	f, err := parser.ParseFile(fset, path, nil, parser.ParseComments)
+	if err != nil {
+		return 0, nil, err
+	}
+	orig, _ := os.ReadFile(path)
+	if bytes.Contains(orig, []byte("//go:embed")) || bytes.Contains(orig, []byte("import \"C\"")) || bytes.Contains(orig, []byte("//go:build")) {
+		return 0, nil, nil
+	}
+	base := filepath.Base(filepath.Dir(path)) + "/" + filepath.Base(path)
+	count := 0
+	fix := func(list []ast.Stmt) []ast.Stmt {
+		var outl []ast.Stmt
+		for _, s := range list {
+			outl = append(outl, s)
+			if isUnlockStmt(s) {
+				line := fset.Position(s.Pos()).Line
+				outl = append(outl, yieldStmt(fmt.Sprintf("unlock:%s:%d", base, line)))
+				count++
+			}
+		}
+		return outl
+	}
+	ast.Inspect(f, func(n ast.Node) bool {
+		switch v := n.(type) {
+		case *ast.BlockStmt:
+			v.List = fix(v.List)
+		case *ast.CaseClause:
+			v.Body = fix(v.Body)
+		case *ast.CommClause:
+			v.Body = fix(v.Body)
+		}
+		return true
+	})
+	if count == 0 {
+		return 0, nil, nil
+	}
+	addImport(f, hookImportPath)
+	var b bytes.Buffer
+	cfg := printer.Config{Mode: printer.UseSpaces | printer.TabIndent, Tabwidth: 8}
+	f.Comments = nil
+	if err := cfg.Fprint(&b, fset, f); err != nil {
+		return 0, nil, err
+	}
+	fm, err := format.Source(b.Bytes())
 	if err != nil {
 		return 0, nil, fmt.Errorf("formatting instrumented %s: %w", base, err)
 	}
